@@ -1,6 +1,7 @@
 package main
 
 import (
+	"context"
 	"encoding/json"
 	"fmt"
 	"os"
@@ -369,7 +370,9 @@ func runWitness(id, spec string) (input, msg, cmd string) {
 		return "", "", ""
 	}
 	bin := filepath.Join(verifDir, "bin", "parseprobe")
-	out, _ := exec.Command(bin, "search", fs[1], fs[2], "1").CombinedOutput()
+	wctx, wcancel := context.WithTimeout(context.Background(), 90*time.Second)
+	defer wcancel()
+	out, _ := exec.CommandContext(wctx, bin, "search", fs[1], fs[2], "1").CombinedOutput()
 	for _, l := range strings.Split(string(out), "\n") {
 		if strings.HasPrefix(l, "FAILING-INPUT ") {
 			rest := strings.TrimPrefix(l, "FAILING-INPUT ")
